@@ -47,10 +47,10 @@ OP = st.one_of(
 ).map(list)
 
 CASE = st.builds(
-    lambda a, p, r, init, reveals, ops, lat, shrink: {
+    lambda a, p, r, init, reveals, ops, lat, shrink, real: {
         'activation': a, 'prefetch': p, 'reorg_limit': r, 'init': init,
         'reveals': [[1 + h % len(init), k] for h, k in reveals], 'ops': ops, 'lat': lat,
-        'shrink': shrink},
+        'shrink': shrink, 'real_daemon': real},
     st.integers(0, 9), st.integers(1, 8), st.sampled_from([1, 2, 3, 5, 8, 100]),
     st.lists(scenario.block_desc(max_txs=3), min_size=6, max_size=30),
     st.lists(st.tuples(st.integers(0, 40), st.integers(1, 25)).map(list), max_size=3),
@@ -58,7 +58,10 @@ CASE = st.builds(
     st.lists(st.integers(0, 2), max_size=30),
     # the daemon's reported height goes DOWN during initial sync (failover to a lagging daemon,
     # invalidateblock): at the n-th daemon call its best chain loses its top k blocks
-    st.none() | st.none() | st.tuples(st.integers(1, 6), st.integers(2, 14)).map(list))
+    st.none() | st.none() | st.tuples(st.integers(1, 6), st.integers(2, 14)).map(list),
+    # the repository's own Daemon client (2 URLs) over an HTTP-level fake instead of the harness's
+    # fake daemon: its cached height is what the undo decision reads
+    st.sampled_from([0, 0, 2]))
 
 
 class WindowMachine(Machine):
